@@ -166,7 +166,8 @@ class Engine:
             self._n += 1
             out = self.ctx.scratch / "pkg" / f"p{self._n}"
             c._pkg = out  # type: ignore
-            reqs.append({"args": {"backend": c.backend, "query": c.full_query(), "out": str(out), "wire": c.wire, "monitors": list(monitors)}})
+            reqs.append({"args": {"backend": c.backend, "query": c.full_query(), "out": str(out), "wire": c.wire, "monitors": list(monitors),
+                                  "pre_queries": list(getattr(c, "pre_queries", []))}})
         kw = {} if parallel is None else {"parallel": parallel}
         return run_batch(reqs, self.ctx.scratch, **kw)
 
